@@ -16,6 +16,9 @@ ASSUME = [
     "transport limit, as the framing would enforce",
     "a substream codec without a configured maximum (UnsignedVarint(None)) has no limit to exceed; it is still required "
     "not to panic or abort (probed in child processes, the outcome of a multi-GiB allocation depends on the machine)",
+    "truncation is systematic, not sampled, for the cheap stateless decoders: for a fixed catalogue of valid multistream "
+    "payloads / messages / frames / length prefixes (1- and 2-byte prefixes, one to three messages) every prefix and every "
+    "'announced length = available +1 / +2 / + prefix size' variant is run in every tier and for every seed",
     "a decoder that makes no progress for 120 s (inputs take milliseconds) is reported as a hang",
     "prost, unsigned-varint, multiaddr, cid, multihash, snow are exercised only through litep2p's entry points",
     "the exact outcome per class (Impl layer) is a drift detector only; the verdict is: value or error, no panic, no "
@@ -128,6 +131,7 @@ def check(ctx):
                 worst[d] = {"alloc": ev["alloc"], "limit": ev["limit"], "op": ev.get("op", "")}
     need = ["ld:", "cls:rps", "cls:sub", "cls:msg", "cls:lis", "cls:dia", "nomax:", "pb:kademlia", "pb:bitswap", "pb:identify",
             "pb:noise_payload", "pb:public_key", "pb:peer_id", "pb:multiaddr", "pb:mss_message", "pb:cid", "pb:bitswap_prefix",
+            "pb:mss_listener", "pb:mss_dialer", "pb:length_delimited", "pb:payload_size", "pb:substream",
             "rt:kademlia", "rt:bitswap", "rt:identify", "rt:mss_message"]
     missing = [k for k in need if not by.get(k)]
     if missing or "hang_near" in summ:
